@@ -372,6 +372,7 @@ def _stress_round(args) -> dict:
     import snowflake.connector
     nthreads, ninserts, seed = args
     errs: list[str] = []
+    slow: list[int] = []
     with fakesnow.patch():
         main = snowflake.connector.connect(database="shared", schema="s0")
         main.cursor().execute("create table shared.s0.log (tid int, n int)")
@@ -379,7 +380,11 @@ def _stress_round(args) -> dict:
 
         def w(tid: int):
             try:
-                barrier.wait(timeout=60)
+                try:
+                    barrier.wait(timeout=100)
+                except threading.BrokenBarrierError:
+                    slow.append(tid)
+                    return
                 c = snowflake.connector.connect(database="newdb", schema="news")   # all threads auto-create the same db + schema
                 cur = c.cursor()
                 for n in range(ninserts):
@@ -391,12 +396,13 @@ def _stress_round(args) -> dict:
 
         ts = [threading.Thread(target=w, args=(i,), daemon=True) for i in range(nthreads)]
         [t.start() for t in ts]
-        deadline = time.time() + 60
+        deadline = time.time() + 120
         for t in ts:
             t.join(timeout=max(0.1, deadline - time.time()))
         hung = sum(t.is_alive() for t in ts)
-        if hung:
-            return {"errs": errs, "hung": hung, "total": -1, "distinct": -1, "expect": nthreads * ninserts, "seed": seed}
+        if hung or slow:
+            # timeouts are infrastructure (exit 2), never a verdict: an overloaded machine must not look like a deadlock
+            raise common.Infra(f"stress round (seed {seed}): {hung} threads still running after 120 s, {len(slow)} never passed the barrier")
         cur = main.cursor()
         cur.execute("select count(*), count(distinct tid * 1000 + n) from shared.s0.log")
         total, distinct = cur.fetchall()[0]
